@@ -416,6 +416,25 @@ func battery(r *vf.Run, withInt8 bool) []directed {
 	add("inline-multi", SInlineMulti{[]STwo{{1, 2}, {3, 4}}})
 	add("inline-multi", SInlineMulti{[]STwo{{1, 0x0102}, {3, 0x0304}, {5, 0x0506}}})
 	add("inline-multi", SInlineMulti{[]STwo{{0, 0}, {3, 4}}})
+	// ... and omit some of them: every present/absent pattern of the omittable fields over three elements
+	for mask := 0; mask < 64; mask++ {
+		var a SInlineOmitFirst
+		var b SInlineBytesFirst
+		a.Title, b.Rev = "t", 0xffffffff
+		for i := 0; i < 3; i++ {
+			tr, k := STrack{Id: uint8(i + 1), Gain: uint16(100 * i)}, SKeyed{Kind: uint8(i * 127)}
+			if mask>>(2*i)&1 == 1 {
+				tr.Label, k.Salt = fmt.Sprint("label", i), []byte{byte(i), 9}
+			}
+			if mask>>(2*i+1)&1 == 1 {
+				k.Note = "n"
+			}
+			a.L, b.L = append(a.L, tr), append(b.L, k)
+		}
+		add("inline-multi-omitted-fields", a)
+		add("inline-multi-omitted-fields", b)
+		r.Distinct("inline_multi_omitted_field_pattern", fmt.Sprintf("%06b", mask))
+	}
 	add("inline-triple", SInlineTriple{[]SOne{{1}, {2}}, []SName{{"a"}, {"b"}}})
 	add("inline-triple", SInlineTriple{[]SOne{{1}}, nil})
 	add("inline-triple", SInlineTriple{nil, []SName{{"a"}, {"b"}, {"c"}}})
@@ -488,7 +507,7 @@ func main() {
 		"non-trivial = distinct (type, non-empty reference encoding) or distinct (type, decoder input)")
 	r.Assume("the reference encoder (refenc.go) follows the HAP TLV8 conventions: little-endian integers of the field's width, IEEE-754 float32 little-endian, bool 0/1, " +
 		"255-byte fragments, list elements separated by 00 00; empty strings/bytes and empty nested structs are omitted")
-	r.Assume("generator domain: pointers to structs are not nil; list elements and pointer targets have a non-empty encoding; elements of multi-field inline lists emit every field; " +
+	r.Assume("generator domain: pointers to structs are not nil; list elements and pointer targets have a non-empty encoding; " +
 		"inline-list element tags do not collide with sibling tags; nil and empty slices/strings are equal; NaN equals NaN")
 
 	types := append(append([]typeEntry{}, rtpTypes...), synTypes...)
@@ -807,6 +826,7 @@ func main() {
 	r.Floor("kind_boundary", r.DistinctN("kind_boundary"), 100)
 	r.Floor("tagged_list_pattern", r.DistinctN("tagged_list_pattern"), 31)
 	r.Floor("inline_list_pattern", r.DistinctN("inline_list_pattern"), 31)
+	r.Floor("inline_multi_omitted_field_pattern", r.DistinctN("inline_multi_omitted_field_pattern"), 64)
 	r.Floor("field_kinds_generated", r.DistinctN("field_kinds_generated"), 14)
 	r.Count("rejected_call_groups_before_real_calls", int(atomic.LoadInt64(&disturbances)))
 	r.Floor("rejected_call_groups_before_real_calls", int(atomic.LoadInt64(&disturbances)), 1000)
